@@ -202,6 +202,19 @@ CHECKS["C07"] = (True, "exploration",
     TRUST + "search_for_paths() is driven directly; the CLI wrapper "
     "(printing, de-duplication) is exercised by C16.", "6/C07")
 
+CHECKS["C16"] = (True, "exploration",
+    "generated invocations of the real console entry points (in-process, "
+    "plus a subprocess sample); differential against the library calls and "
+    "exit-status rules",
+    "~1.5e5 generated invocations of yaml-get / yaml-set / yaml-merge / "
+    "yaml-diff / yaml-validate / yaml-paths with file, '-' and implicit "
+    "stdin delivery, YAML and JSON output and both notations; stdout, exit "
+    "status and the written file must agree with the library-level result "
+    "the other properties decide, file and stdin delivery must agree, and "
+    "no invocation may end in an uncaught exception.",
+    TRUST + "main() is called in-process with patched argv/stdio; the "
+    "installed scripts are sampled as subprocesses.", "6/C16")
+
 ALL = ["C%02d" % i for i in range(1, 20)]
 
 
